@@ -272,6 +272,7 @@ def run(ctx):
     ctx.rule('R6', 'each conditional case: every comparison relates an attribute of t1 to an attribute of the same kind of t2; the answer can only go from independent to dependent when two '
              'compared objects become the same one, or when a timeout is present; a consulted timeout is by itself a reason for dependence', 15)
     ACTOR = {'aid', 'target', 'child', 'sender', 'receiver', 'issuer'}
+    KIND_ALIAS = {'mbox': 'mailbox', 'cond': 'condvar', 'cv': 'condvar', 'semaphore': 'sem', 'communication': 'comm', 'bar': 'barrier'}
 
     def strip(t):
         while isinstance(t, tuple) and t and ((t[0] in ('cast', 'conv') and len(t) >= 3 and not (t[2] in (T1, T2))) or t[0] == 'truthy'):
@@ -291,7 +292,8 @@ def run(ctx):
         nm = nm.strip('_')
         if nm.startswith('get_'):
             nm = nm[4:]
-        return 'actor' if nm in ACTOR else nm
+        nm = nm[:-3] if nm.endswith('_id') else nm
+        return 'actor' if nm in ACTOR else KIND_ALIAS.get(nm, nm)
 
     def roots(t):
         return set(x for x in ex.subterms(t) if x in (T1, T2))
